@@ -82,6 +82,7 @@ pub fn lane_main(args: &Args) -> i32 {
     let budget_s: u64 = std::env::var("VERIF_LANE_BUDGET_S").ok().and_then(|s| s.parse().ok()).unwrap_or(u64::MAX);
     let mut r = args.lane;
     let mut cut_short = false;
+    let mut hangs = 0usize;
     while r < total {
         if let Some(only) = args.only_run {
             if r != only {
@@ -89,7 +90,8 @@ pub fn lane_main(args: &Args) -> i32 {
                 continue;
             }
         }
-        if start.elapsed().as_secs() > budget_s {
+        if start.elapsed().as_secs() > budget_s || hangs >= 3 {
+            // hangs cost a watchdog period each: after three of them the lane has its finding and stops
             cut_short = true;
             break;
         }
@@ -134,6 +136,7 @@ pub fn lane_main(args: &Args) -> i32 {
         if samples.len() < 2 && nt && r >= args.lane {
             samples.push(json!({"run": r, "scenario": shorten(&sc), "log_tail": out.log.iter().rev().take(6).rev().cloned().collect::<Vec<_>>() }));
         }
+        hangs += out.viols.iter().filter(|v| v.sig.contains("hang")).count();
         for v in &out.viols {
             if spec.owns.contains(&v.class.as_str()) {
                 let c = per_sig.entry(v.sig.clone()).or_insert(0);
